@@ -13,6 +13,8 @@ THEOREMS = [
     "Genql.C01.between_iff_ge_le",
     "Genql.C01.not_partitions",
     "Genql.C01.like_translation",
+    "Genql.C01.inLoop_subquery_rows",
+    "Genql.C01.inLoop_multi_column_error",
 ]
 TRUSTED = ["Go regexp engine and regexp.QuoteMeta (compared directly, not modelled)",
            "strings.ToLower beyond ASCII", "sqlparser (query text -> AST)"]
@@ -114,6 +116,7 @@ LEVEL_TEXT = ("Lean theorems: on the property's domain (typed non-NULL columns, 
               "returns rows.filter(sem) for every table and predicate (unbounded); LIKE's matcher equals the SQL LIKE relation. "
               "The model is tied to /repo by a differential correspondence on generated tables x predicates on every run.")
 LEVEL_NOTE = ("Trusted: Lean kernel (+propext, Classical.choice, Quot.sound), the Go<->Lean correspondence glue, sqlparser, Go regexp "
-              "(compared not modelled), ASCII-only case folding in the model. IN over a sub-query is covered by the correspondence, "
-              "not yet by the WT domain of the theorem (where_exact is stated for literal lists).")
+              "(compared not modelled), ASCII-only case folding in the model. IN over a sub-query: the scan over the sub-query's rows "
+              "is proved to be membership among the single column's values (inLoop_subquery_rows; several columns = error); that "
+              "the rows are what the sub-query returns stand-alone is C07's statement and is covered here by the correspondence.")
 TECHNIQUE = "Lean 4 proof (induction over predicate syntax and row list) + differential model/implementation correspondence"
